@@ -764,7 +764,7 @@ impl Prop for C07 {
         "exploration"
     }
     fn rule(&self, _t: Tier) -> String {
-        "documents: every layout vector with <= k deviations on 5 skeletons (values made unique per field), crossed with the FULL product of 864 settings (minus the 240 that combine a line-restructuring formatter with a value-dependent comparator) (4 indentations x immediate_empty_line x 3 one-liner limits x 3 paragraph orders x 3 entry orders x 4 formatters); each case runs Deb822::wrap_and_sort (with Paragraph::wrap_and_sort plugged in), re-reads the result, applies it a second time and cross-checks the Paragraph- and Entry-level entry points; control wrappers: 8 control files x 24 settings x {Control, Source/Binary}; non-trivial = case whose document has a deviation or whose setting differs from the default".into()
+        "documents: every layout vector with <= k deviations on 5 skeletons (values made unique per field; the final newline is a free dimension on top of the k deviations), crossed with the FULL product of 864 settings (minus the 240 that combine a line-restructuring formatter with a value-dependent comparator) (4 indentations x immediate_empty_line x 3 one-liner limits x 3 paragraph orders x 3 entry orders x 4 formatters); each case runs Deb822::wrap_and_sort (with Paragraph::wrap_and_sort plugged in), re-reads the result, applies it a second time and cross-checks the Paragraph- and Entry-level entry points; control wrappers: 8 control files x 24 settings x {Control, Source/Binary}; non-trivial = case whose document has a deviation or whose setting differs from the default".into()
     }
     fn bounds(&self, t: Tier) -> Value {
         let sk: Vec<Value> = c07_skels().iter().map(|s| json!({"skeleton": s, "k": c07_k(t, *s), "documents": kdev_count(&menus(*s), c07_k(t, *s))})).collect();
@@ -798,7 +798,18 @@ impl Prop for C07 {
         }
         let (si, first) = shards[shard];
         let sk = c07_skels()[si];
-        kdev_shard(&menus(sk), c07_k(t, sk), first, &mut |v| {
+        let m = menus(sk);
+        let last = m.len() - 1;
+        kdev_shard(&m, c07_k(t, sk), first, &mut |v0| {
+            // the final newline is a free dimension: every layout is reformatted with and without it (a vector that
+            // already spends a deviation on that slot is the twin of one with fewer deviations and is skipped)
+            if v0[last] != 0 {
+                return;
+            }
+            for fin in 0..2 {
+            let mut w = v0.to_vec();
+            w[last] = fin;
+            let v = &w[..];
             if render(sk, v).is_some() {
                 let doc = DocCase { skel: sk, v: v.to_vec(), junk: None, name_char: None };
                 product(&cfg_menus(), &mut |cv| {
@@ -810,6 +821,7 @@ impl Prop for C07 {
                     }
                     f(&C07Case::Doc { doc: doc.clone(), cfg });
                 });
+            }
             }
         });
     }
